@@ -32,10 +32,22 @@ type JFullIdentifier struct {
 	Pkg  string
 	Name string
 	Type string
+
+	FilePath string
+	Fields   map[string]JField
+	Imports  []JImport
+}
+
+// Snapshot copies the tables collected for the current file into the identifier,
+// so that they survive the analysis of the next file.
+func (identifier *JFullIdentifier) Snapshot(filePath string) {
+	identifier.FilePath = filePath
+	identifier.Fields = fields
+	identifier.Imports = imports
 }
 
 func NewJFullIdentifier() JFullIdentifier {
-	identifier := JFullIdentifier{"", "", ""}
+	identifier := JFullIdentifier{}
 	methods = nil
 	fields = make(map[string]JField)
 	imports = nil
@@ -55,6 +67,9 @@ func (identifier *JFullIdentifier) AddField(field JField) {
 }
 
 func (identifier *JFullIdentifier) GetFields() map[string]JField {
+	if identifier.Fields != nil {
+		return identifier.Fields
+	}
 	return fields
 }
 
@@ -63,6 +78,9 @@ func (identifier *JFullIdentifier) AddImport(jImport JImport) {
 }
 
 func (identifier *JFullIdentifier) GetImports() []JImport {
+	if identifier.FilePath != "" {
+		return identifier.Imports
+	}
 	return imports
 }
 
